@@ -1126,6 +1126,47 @@ func findRangeLoops(fn *ssa.Function) []rangeLoop {
 		}
 		out = append(out, rl)
 	}
+	// the same loop written with an explicit index: for i := 0; i < len(s) [&& …]; i++ { … s[i] … }
+	for _, b := range fn.Blocks {
+		if len(b.Instrs) < 2 {
+			continue
+		}
+		iff, ok := b.Instrs[len(b.Instrs)-1].(*ssa.If)
+		if !ok {
+			continue
+		}
+		cmp, ok := iff.Cond.(*ssa.BinOp)
+		if !ok || cmp.Op != token.LSS {
+			continue
+		}
+		phi, ok := cmp.X.(*ssa.Phi)
+		if !ok || phi.Block() != b {
+			continue
+		}
+		lc, ok := cmp.Y.(*ssa.Call)
+		if !ok {
+			continue
+		}
+		if bi, isB := lc.Call.Value.(*ssa.Builtin); !isB || bi.Name() != "len" {
+			continue
+		}
+		fromZero, stepOne := false, false
+		for _, e := range phi.Edges {
+			if v, ok := intConst(e); ok && v == 0 {
+				fromZero = true
+			}
+			if inc, ok := e.(*ssa.BinOp); ok && inc.Op == token.ADD && inc.X == ssa.Value(phi) {
+				if one, ok := intConst(inc.Y); ok && one == 1 {
+					stepOne = true
+				}
+			}
+		}
+		if !fromZero || !stepOne || len(phi.Edges) != 2 {
+			continue
+		}
+		// no other store to the index: it is an SSA phi, so the only updates are the two edges
+		out = append(out, rangeLoop{header: b, body: b.Succs[0], done: b.Succs[1], idx: phi, slice: lc.Call.Args[0]})
+	}
 	return out
 }
 
